@@ -6,8 +6,8 @@ import re
 from contracts import c02_bookkeeping
 from vlib.common import PROVED, REFUTED, UNKNOWN
 
-_NULLS = re.compile(r"null|NULLS|row_offsets\[t\]|page_tiling|iloc_slice|out_of_reach")
-_TILING = re.compile(r"^iter_dataframe|page_tiling|num_values|num_rows|row_offsets\[t\]|exactly_one_data_page_per_tile|iloc_slice|"
+_NULLS = re.compile(r"null|NULLS|row_offsets\[t\]|page_tiling|iloc_slice|rows_are_the_tile|out_of_reach")
+_TILING = re.compile(r"^iter_dataframe|page_tiling|num_values|num_rows|row_offsets\[t\]|exactly_one_data_page_per_tile|rows_are_the_tile|iloc_slice|"
                      r"one_chunk_per_typed|columns_are_the_chunks|empty_frame_returns_None|nonempty_frame|schema_loop|out_of_reach")
 SELECT = {
     "C02": lambda n: not n.startswith("iter_dataframe"),
